@@ -90,6 +90,8 @@ GhostAfter(p, a, q0) ==
                  \* only pods of the BatchRelease's update revision carry its labels: replacing them removes labels
                  !.wl.labelled = IF q0.br.exists /\ q0.br.updRev \in 1..3 /\ q0.wl.exists
                                  THEN Min(q0.wl.labelled, q0.wl.n[q0.br.updRev]) ELSE q0.wl.labelled,
+                 !.ghost.midSwitch = p.ghost.midSwitch \/ (a \in {"user.rollback", "user.release3", "user.delete", "user.disable"}
+                                                              /\ p.ro.exists /\ p.ro.hasSub /\ p.ro.fstep \notin {"", "END"}),
                  !.ghost.disSup = p.ghost.disSup \/ (a \in UserActs /\ (q0.user.disabled \/ q0.user.deleted) /\ (q0.user.rev >= 3 \/ q0.user.rolledBack)),
                  !.ghost.lateChange = p.ghost.lateChange \/ (a = "user.release3" /\ p.ro.reason \in {"Finalising", "Cancelling", "Completed"}),
                  !.quiet = ~\E e \in {"env.observe", "env.update", "env.ready", "env.scale"} : EnvEnabled(q0, e)]
@@ -119,17 +121,18 @@ Spec == Init /\ [][Next]_vars
 KF_HoldLeft(st)  == ~st.ghost.brEver          \* KF-C05-hold-left-before-batchrelease / KF-C18-…
 KF_JumpBack(st)  == st.ghost.jumpBack         \* KF-C04-backward-jump-after-full-replacement
 KF_Late(st)      == st.ghost.lateChange       \* KF-C05-late-template-change-clobbered
-KF_DisSup(st)    == st.ghost.disSup           \* KF-C05-disabled-while-superseded
+KF_DisSup(st)    == st.ghost.disSup           \* KF-C05-exit-while-superseded
+KF_MidSwitch(st) == st.ghost.midSwitch        \* KF-C05-finalising-cursor-carried-across-reasons
 
 T(a) == [base |-> a, fault |-> "", panic |-> "", act |-> a]
 
 Inv_C04a == C04a(s)
 Inv_C04b == C04b(s) \/ KF_JumpBack(s)
 Inv_C04c == C04c(s)
-Inv_C05  == C05(s) \/ KF_HoldLeft(s) \/ KF_Late(s) \/ KF_DisSup(s)
+Inv_C05  == C05(s) \/ KF_HoldLeft(s) \/ KF_Late(s) \/ KF_DisSup(s) \/ KF_MidSwitch(s)
 Inv_C05tr == C05tr(s)
 Inv_C10b == C10b(s)
-Inv_C18b == C18b(s) \/ KF_HoldLeft(s) \/ KF_DisSup(s)
+Inv_C18b == C18b(s) \/ KF_HoldLeft(s) \/ KF_DisSup(s) \/ KF_MidSwitch(s)
 
 ActOK(n) == ActHolds(n, s, T(last'), s')
 \* KF-C03-unpin-window-after-plan-edit-to-full-step, KF-C02-current-step-replicas-edit-ignored
@@ -139,7 +142,7 @@ Act_C02 == [][ActOK("C02") /\ ActOK("C02pause") /\ ActOK("C02promote") /\ ActOK(
 Act_C03 == [][ActOK("C03a") /\ ActOK("C03b") /\ (ActOK("C03c") \/ KF_EditFull)]_vars
 Act_C10 == [][ActOK("C10a")]_vars
 Act_C11 == [][ActOK("C11a") /\ ActOK("C11b") /\ ActOK("C11c") /\ ActOK("C11d")]_vars
-Act_C18 == [][(ActOK("C18a") \/ KF_HoldLeft(s) \/ KF_DisSup(s)) /\ ActOK("C18br") /\ ActOK("C18tr")]_vars
+Act_C18 == [][(ActOK("C18a") \/ KF_HoldLeft(s) \/ KF_DisSup(s) \/ KF_MidSwitch(s)) /\ ActOK("C18br") /\ ActOK("C18tr")]_vars
 
 \* B2: dump the reachable abstract states (ModelView) for comparison with the implementation's
 DumpView == IOEnv.VERIF_DUMP # "1" \/ PrintT(<<"ST", ToJson(ModelView(s))>>)
